@@ -1,7 +1,7 @@
 (* C16 -- Mixed schedules are identical with and without numba
    Property theorems only: each proof is one application of a lemma proved in Proofs/, followed by Print Assumptions. *)
 From Coq Require Import ZArith List Bool.
-From CS Require TabEq TabSim MemoCoh MixPaths GenLang5 GenMixed.
+From CS Require TabEq TabSim MemoCoh MixPaths GenLang5 GenMixed TabulGenSpec.
 From CS Require Import Actions NAdvance Multistage Exec Sched RunFacts Projections BasicInv MultistageRun AllocTotal TLBridge MixBridge.
 Import ListNotations.
 Open Scope Z_scope.
@@ -22,6 +22,16 @@ Theorem C16_mixed_source_is_model :
 Proof. exact (@GenMixed.mixed_from_start). Qed.
 Print Assumptions C16_mixed_source_is_model.
 End M_C16_mixed_source_is_model.
+
+(* THE TABULATED PLANNER IS THE SOURCE: TabulGenSpec.tabul_shape is the Gallina function harness/translate.py renders from mixed_steps_tabulation (a cell schedule[n_i, s_i, :] is one entry of Mixed.table, an assignment Mixed.tset, a read Mixed.tget, assert raises AssertionError; Gen/TabulGen.v re-translates the current source on every run and proves the result equal to this term by conversion); for n >= 1 it returns a table exactly when the extracted Mixed.tabulate does, the same one (they differ only in the exception and read order of a failing assert, which C16_tabulate_planC excludes) *)
+Module M_C16_tabulation_is_source.
+Import TabulGenSpec.
+Theorem C16_tabulation_is_source :
+  forall (n s : Z) (t : Mixed.table),
+         1 <= n -> tabul_shape n s = Actions.Ok t <-> Mixed.tabulate n s = Actions.Ok t.
+Proof. exact (@TabulGenSpec.tabul_shape_is_model). Qed.
+Print Assumptions C16_tabulation_is_source.
+End M_C16_tabulation_is_source.
 
 (* STREAMS: on the extracted model the whole monitored run of MixedCheckpointSchedule -- every outcome, every observation (n, r, max_n, flags, uses_storage_type) and the executor state -- is the same on the tabulated path (tab = true) and on the memoised path (tab = false), for every N, unit count, storage and number of requests *)
 Module M_C16_streams_equal.
